@@ -63,13 +63,14 @@ pub fn evaluate_expression(expr: &str, facts: &Facts) -> Result<Value> {
     }
 
     // Is it a string literal?
-    if expr.len() >= 2 {
-        let unquoted = &expr[1..expr.len() - 1];
-        if (expr.starts_with('"') && expr.ends_with('"') && !unquoted.contains('"'))
-            || (expr.starts_with('\'') && expr.ends_with('\'') && !unquoted.contains('\''))
+    for quote in ['"', '\''] {
+        if let Some(unquoted) = expr
+            .strip_prefix(quote)
+            .and_then(|rest| rest.strip_suffix(quote))
         {
-            let unquoted = &expr[1..expr.len() - 1];
-            return Ok(Value::String(unquoted.to_string()));
+            if !unquoted.contains(quote) {
+                return Ok(Value::String(unquoted.to_string()));
+            }
         }
     }
 
@@ -104,7 +105,7 @@ fn find_operator(expr: &str, operators: &[char]) -> Option<usize> {
     // (start of the expression, or right after another operator or `(`)
     let mut operand_before = false;
 
-    for (i, ch) in expr.chars().enumerate() {
+    for (i, ch) in expr.char_indices() {
         match ch {
             '(' => {
                 paren_depth += 1;
@@ -150,8 +151,8 @@ fn apply_operator(left: &Value, op: &str, right: &Value) -> Result<Value> {
         return Ok(Value::String(concatenated));
     }
 
-    let left_num = left_num.unwrap();
-    let right_num = right_num.unwrap();
+    let left_num = left_num?;
+    let right_num = right_num?;
 
     let result = match op {
         "+" => left_num + right_num,
